@@ -559,7 +559,9 @@ pub fn generate(rng: &mut Rng) -> Scenario {
         dirs.push(p);
     }
     // slice files and other files
-    let n_files = 2 + rng.usize_below(9);
+    // one world in eight is wide: lists of more than twenty files behave differently in sorting and hashing code
+    let wide = rng.chance(1, 8);
+    let n_files = if wide { 18 + rng.usize_below(30) } else { 2 + rng.usize_below(9) };
     let mut slice_files: Vec<String> = Vec::new();
     for _ in 0..n_files {
         let dir = rng.pick(&dirs).clone();
@@ -591,7 +593,7 @@ pub fn generate(rng: &mut Rng) -> Scenario {
         k += 1;
     }
     // links
-    let n_links = rng.usize_below(5);
+    let n_links = if wide { rng.usize_below(14) } else { rng.usize_below(5) };
     for i in 0..n_links {
         let dir = rng.pick(&dirs).clone();
         let depth = if dir.is_empty() { 0 } else { dir.matches('/').count() + 1 };
@@ -690,7 +692,7 @@ pub fn generate(rng: &mut Rng) -> Scenario {
     // arguments
     let mut sources: Vec<String> = Vec::new();
     let mut references: Vec<String> = Vec::new();
-    let n_src = 1 + rng.usize_below(3);
+    let n_src = if wide && rng.chance(1, 2) { 12 + rng.usize_below(24) } else { 1 + rng.usize_below(3) };
     for _ in 0..n_src {
         let t = rng.pick(&slice_files).clone();
         let sp = spellings(&fs, &cwd, &t, rng);
